@@ -24,9 +24,16 @@ pub struct Conf {
     /// off | v1 | v2 | v1v2
     #[serde(default)]
     proxy: String,
+    /// the status answer is larger than anything the kernel buffers (BIG_STATUS bytes of description)
+    #[serde(default)]
+    big_status: bool,
 }
 
-/// child process: `netsim C14-child <port> <max_packet_length> <expiry> <timeout> [off|v1|v2|v1v2] [limit]`
+const BIG_STATUS: usize = 24 << 20;
+/// bytes a never-reading status client found once it finally read (evidence of non-vacuity)
+static UNREAD_TOTALS: Mutex<Vec<usize>> = Mutex::new(vec![]);
+
+/// child process: `netsim C14-child <port> <max_packet_length> <expiry> <timeout> [off|v1|v2|v1v2] [limit] [bigstatus]`
 pub fn child(args: &[String]) {
     let port: u16 = args[0].parse().expect("port");
     let mut c = passage::config::Config::default();
@@ -47,6 +54,12 @@ pub fn child(args: &[String]) {
             c.rate_limiter = Some(passage::config::RateLimiter { duration: 3600, limit });
         }
     }
+    if args.get(6).map(String::as_str) == Some("bigstatus") {
+        let mut st = passage::config::FixedStatus::default();
+        st.description = Some(format!("\"{}\"", "x".repeat(BIG_STATUS)));
+        st.favicon = None;
+        c.adapters.status = passage::config::StatusAdapter::Fixed(st);
+    }
     c.adapters.authentication = passage::config::AuthenticationAdapter::Fixed(passage::config::FixedAuthentication {
         profile: passage_adapters::authentication::Profile { id: uuid::Uuid::from_u128(0xabcdef), name: "Fixed_Profile".into(), properties: vec![], profile_actions: vec![] },
     });
@@ -65,7 +78,7 @@ pub fn child(args: &[String]) {
 }
 
 fn spawn(conf: &Conf) -> App {
-    spawn_app(conf.max_packet_length, conf.expiry, conf.timeout, &conf.proxy, 0)
+    spawn_app_with(conf.max_packet_length, conf.expiry, conf.timeout, &conf.proxy, 0, if conf.big_status { &["bigstatus"] } else { &[] })
 }
 
 fn stop(app: App) -> Option<i32> {
@@ -85,9 +98,13 @@ fn handshake_with_length(total: usize, next: i32) -> Option<Vec<u8>> {
 }
 
 fn cookie(age: i64, secret: &str, client_ip: &str) -> Vec<u8> {
+    cookie_named(age, secret, client_ip, "Cookie_Holder")
+}
+
+fn cookie_named(age: i64, secret: &str, client_ip: &str, user: &str) -> Vec<u8> {
     let now = SystemTime::now().duration_since(UNIX_EPOCH).unwrap().as_secs() as i64;
     let body = serde_json::to_vec(&json!({
-        "timestamp": (now - age).max(0), "client_addr": format!("{client_ip}:1"), "user_name": "Cookie_Holder",
+        "timestamp": (now - age).max(0), "client_addr": format!("{client_ip}:1"), "user_name": user,
         "user_id": "09879557-e479-45a9-b434-a56377674627", "target": "t", "profile_properties": [], "extra": {},
     }))
     .unwrap();
@@ -165,11 +182,19 @@ async fn cookie_cases(addr: SocketAddr, conf: &Conf, out: &Mutex<Vec<Viol>>) -> 
         // the cookie response frame (about 330 bytes) does not fit: nothing to judge here
         return 0;
     }
-    let cases: Vec<(&str, i64, &str, bool)> = if conf.expiry > u32::MAX as u64 {
+    let mut cases: Vec<(&str, i64, &str, bool)> = if conf.expiry > u32::MAX as u64 {
         vec![("fresh", 5, SECRET, true), ("old-but-within-a-huge-expiry", 1_000_000, SECRET, true), ("other-secret", 0, "another-secret", false)]
     } else {
         vec![("fresh", e - 2, SECRET, true), ("expired", e + 2, SECRET, false), ("other-secret", 0, "another-secret", false), ("very-old", e + 100_000, SECRET, false)]
     };
+    // a history: a genuine cookie is honoured, then its tag comes back in front of another body
+    cases.push(("genuine-before-replay", e.min(5) - 1, SECRET, true));
+    cases.push(("replayed-tag-other-body", e.min(5) - 1, SECRET, false));
+    if conf.timeout >= 4 && conf.expiry <= u32::MAX as u64 && conf.expiry >= 1 {
+        // valid when the connection starts (one second left), expired when the client finally presents it
+        cases.push(("expires-during-stall", e - 1, SECRET, false));
+    }
+    let mut genuine: Vec<u8> = vec![];
     for (name, age, secret, must_accept) in cases {
         if age < -1 {
             continue;
@@ -179,7 +204,21 @@ async fn cookie_cases(addr: SocketAddr, conf: &Conf, out: &Mutex<Vec<Viol>>) -> 
             out.lock().unwrap().push(("connect-refused".into(), "the server did not accept a connection".into(), json!({"conf": conf, "case": "cookie"})));
             continue;
         };
-        let p = LoginParams { intent: 3, auth_cookie: Some(cookie(age, secret, "127.0.0.1")), wait: Duration::from_secs(2), ..Default::default() };
+        let payload = match name {
+            "genuine-before-replay" => {
+                genuine = cookie(age, secret, "127.0.0.1");
+                genuine.clone()
+            }
+            "replayed-tag-other-body" => {
+                let other = cookie_named(age, "someone-elses-secret", "127.0.0.1", "Admin");
+                let mut forged = genuine[..32].to_vec();
+                forged.extend_from_slice(&other[32..]);
+                forged
+            }
+            _ => cookie(age, secret, "127.0.0.1"),
+        };
+        let delay = if name == "expires-during-stall" { Duration::from_millis(2_200) } else { Duration::ZERO };
+        let p = LoginParams { intent: 3, auth_cookie: Some(payload), wait: Duration::from_secs(2), auth_cookie_delay: delay, ..Default::default() };
         let mut o = LoginOutcome { packets: vec![], stage: Stage::Connected, error: None };
         c.login(&p, Stage::Connected, Stage::EncryptionRequestReceived, &mut o).await;
         let flag = o.packets.iter().find_map(|p| if let Pkt::EncryptionRequest { should_authenticate, .. } = p { Some(*should_authenticate) } else { None });
@@ -195,7 +234,52 @@ async fn cookie_cases(addr: SocketAddr, conf: &Conf, out: &Mutex<Vec<Viol>>) -> 
     n
 }
 
+/// A client that asks for the (huge) status and does not read: the server's write is blocked when the
+/// deadline passes. Once the client finally reads, it may only find what the kernel had buffered by then,
+/// followed by the end of the stream - not the complete answer, and not a connection that is still open.
+async fn unread_status_case(addr: SocketAddr, conf: &Conf, out: &Mutex<Vec<Viol>>) {
+    use tokio::io::AsyncReadExt;
+    let timeout = Duration::from_secs(conf.timeout);
+    let Ok(mut c) = McClient::connect_with(addr, None, Some(16 * 1024)).await else {
+        out.lock().unwrap().push(("connect-refused".into(), "the server did not accept a connection".into(), json!({"conf": conf, "case": "deadline"})));
+        return;
+    };
+    if !conf.proxy.is_empty() && conf.proxy != "off" {
+        let src: SocketAddr = "127.0.0.1:1".parse().unwrap();
+        let _ = c.send_raw(&if conf.proxy == "v2" { proxy_v2(src, addr) } else { proxy_v1(src, addr) }).await;
+    }
+    let t0 = Instant::now();
+    let _ = c.send(&codec::sb_handshake(769, "status.example", 25565, 1)).await;
+    let _ = c.send(&codec::sb_status_request()).await;
+    tokio::time::sleep(timeout + ALLOWANCE).await;
+    // now drain
+    let mut total = 0usize;
+    let mut buf = vec![0u8; 1 << 16];
+    let drain_limit = Duration::from_secs(20);
+    let t1 = Instant::now();
+    let ended = loop {
+        let left = drain_limit.checked_sub(t1.elapsed()).unwrap_or(Duration::ZERO);
+        match tokio::time::timeout(left, c.stream.read(&mut buf)).await {
+            Ok(Ok(0)) | Ok(Err(_)) => break true,
+            Ok(Ok(n)) => total += n,
+            Err(_) => break false,
+        }
+    };
+    UNREAD_TOTALS.lock().unwrap().push(total);
+    if total >= BIG_STATUS || !ended {
+        out.lock().unwrap().push((
+            "deadline-not-enforced:status-never-read".into(),
+            format!("timeout = {} s: a client that requested the status and did not read for {:?} afterwards received {total} bytes (the answer has {BIG_STATUS}+ bytes; the kernel buffers far less) and the stream {} - the server kept writing to it after the deadline", conf.timeout, timeout + ALLOWANCE, if ended { "ended only then" } else { "was still open 20 s later" }),
+            json!({"conf": conf, "case": "deadline", "behaviour": "status-never-read"}),
+        ));
+    }
+    let _ = t0;
+}
+
 async fn deadline_case(addr: SocketAddr, conf: &Conf, behaviour: &str, out: &Mutex<Vec<Viol>>) {
+    if behaviour == "status-never-read" {
+        return unread_status_case(addr, conf, out).await;
+    }
     let timeout = Duration::from_secs(conf.timeout);
     let late_header = behaviour.starts_with("late-proxy-header");
     let connected = if late_header { McClient::connect(addr, None).await } else { connect(addr, conf).await };
@@ -314,26 +398,32 @@ pub fn run(cli: Cli) -> ! {
         vec![serde_json::from_value(case["conf"].clone()).unwrap_or_else(|e| common::machinery(&format!("bad replay: {e}")))]
     } else if thorough {
         vec![
-            Conf { max_packet_length: 7, expiry: 60, timeout: 1, proxy: String::new() },
-            Conf { max_packet_length: 64, expiry: 1, timeout: 2, proxy: String::new() },
-            Conf { max_packet_length: 300, expiry: 60, timeout: 2, proxy: String::new() },
-            Conf { max_packet_length: 1_000, expiry: 60, timeout: 2, proxy: String::new() },
-            Conf { max_packet_length: 2_000, expiry: 1, timeout: 1, proxy: String::new() },
-            Conf { max_packet_length: 10_000, expiry: 3, timeout: 3, proxy: String::new() },
-            Conf { max_packet_length: 1_000, expiry: 21_600, timeout: 18, proxy: String::new() },
-            Conf { max_packet_length: 1_000, expiry: 60, timeout: 4, proxy: "v1v2".into() },
-            Conf { max_packet_length: 1_000, expiry: 60, timeout: 3, proxy: "v2".into() },
-            Conf { max_packet_length: 1_000, expiry: u64::MAX, timeout: u64::MAX, proxy: String::new() },
-            Conf { max_packet_length: 1_000, expiry: 60, timeout: u64::MAX / 2, proxy: "v1v2".into() },
+            Conf { max_packet_length: 7, expiry: 60, timeout: 1, proxy: String::new(), big_status: false },
+            Conf { max_packet_length: 64, expiry: 1, timeout: 2, proxy: String::new(), big_status: false },
+            Conf { max_packet_length: 300, expiry: 60, timeout: 2, proxy: String::new(), big_status: false },
+            Conf { max_packet_length: 1_000, expiry: 60, timeout: 2, proxy: String::new(), big_status: false },
+            Conf { max_packet_length: 2_000, expiry: 1, timeout: 1, proxy: String::new(), big_status: false },
+            Conf { max_packet_length: 10_000, expiry: 3, timeout: 3, proxy: String::new(), big_status: false },
+            Conf { max_packet_length: 1_000, expiry: 21_600, timeout: 18, proxy: String::new(), big_status: false },
+            Conf { max_packet_length: 1_000, expiry: 60, timeout: 4, proxy: "v1v2".into(), big_status: false },
+            Conf { max_packet_length: 1_000, expiry: 60, timeout: 3, proxy: "v2".into(), big_status: false },
+            Conf { max_packet_length: 1_000, expiry: u64::MAX, timeout: u64::MAX, proxy: String::new(), big_status: false },
+            Conf { max_packet_length: 1_000, expiry: 60, timeout: u64::MAX / 2, proxy: "v1v2".into(), big_status: false },
+            Conf { max_packet_length: 1_000, expiry: 60, timeout: 5, proxy: String::new(), big_status: false },
+            Conf { max_packet_length: 2_000, expiry: 1, timeout: 6, proxy: "v2".into(), big_status: false },
+            Conf { max_packet_length: 1_000, expiry: 60, timeout: 2, proxy: String::new(), big_status: true },
+            Conf { max_packet_length: 1_000, expiry: 60, timeout: 1, proxy: "v1v2".into(), big_status: true },
         ]
     } else {
         vec![
-            Conf { max_packet_length: 7, expiry: 60, timeout: 1, proxy: String::new() },
-            Conf { max_packet_length: 64, expiry: 60, timeout: 2, proxy: String::new() },
-            Conf { max_packet_length: 1_000, expiry: 60, timeout: 2, proxy: String::new() },
-            Conf { max_packet_length: 2_000, expiry: 1, timeout: 1, proxy: String::new() },
-            Conf { max_packet_length: 1_000, expiry: 60, timeout: 4, proxy: "v1v2".into() },
-            Conf { max_packet_length: 1_000, expiry: u64::MAX, timeout: u64::MAX, proxy: String::new() },
+            Conf { max_packet_length: 7, expiry: 60, timeout: 1, proxy: String::new(), big_status: false },
+            Conf { max_packet_length: 64, expiry: 60, timeout: 2, proxy: String::new(), big_status: false },
+            Conf { max_packet_length: 1_000, expiry: 60, timeout: 2, proxy: String::new(), big_status: false },
+            Conf { max_packet_length: 2_000, expiry: 1, timeout: 1, proxy: String::new(), big_status: false },
+            Conf { max_packet_length: 1_000, expiry: 60, timeout: 4, proxy: "v1v2".into(), big_status: false },
+            Conf { max_packet_length: 1_000, expiry: u64::MAX, timeout: u64::MAX, proxy: String::new(), big_status: false },
+            Conf { max_packet_length: 1_000, expiry: 60, timeout: 5, proxy: String::new(), big_status: false },
+            Conf { max_packet_length: 1_000, expiry: 60, timeout: 2, proxy: String::new(), big_status: true },
         ]
     };
     let total = std::sync::atomic::AtomicU64::new(0);
@@ -350,6 +440,9 @@ pub fn run(cli: Cli) -> ! {
                     // "no deadline in practice": only that connections are handled at all is judged
                     bh.clear();
                 }
+                if conf.big_status {
+                    bh = vec!["status-never-read", "silent", "stop-after-handshake"];
+                }
                 if !conf.proxy.is_empty() && conf.proxy != "off" {
                     bh.push("late-proxy-header-then-silent");
                     bh.push("late-proxy-header-then-handshake");
@@ -364,8 +457,15 @@ pub fn run(cli: Cli) -> ! {
     rep.set("evaluations", json!(n));
     rep.set("distinct_nontrivial", json!(n));
     rep.set("configurations", json!(confs.len()));
+    let totals = UNREAD_TOTALS.lock().unwrap().clone();
+    if cli.replay.is_none() && totals.iter().all(|t| *t == 0) {
+        // nothing at all arrived: the status answer never started, the case would be vacuous
+        common::machinery("C14: the never-reading status client received nothing; the big-status configuration did not take effect");
+    }
+    rep.set("status_never_read_bytes_found_after_deadline", json!(totals));
+    rep.set("status_answer_bytes", json!(BIG_STATUS));
     rep.set("exhaustive", json!(true));
-    rep.set("rule", json!("one child process running passage::start(config) per configuration (max_packet_length, auth_cookie_expiry, timeout); per configuration: handshake frames of declared length max-1, max, max+1, max+50; cookies aged expiry-2 / expiry+2 / very old / signed with another secret; client behaviours silent, one byte every 100 ms, stopping mid-frame and after each protocol step, and (with PROXY protocol configured) a valid header sent only after 3/4 of the timeout, each required to be disconnected by timeout + 1.5 s; the process is stopped with SIGINT and must exit cleanly. Each connection is a distinct case."));
+    rep.set("rule", json!("one child process running passage::start(config) per configuration (max_packet_length, auth_cookie_expiry, timeout); per configuration: handshake frames of declared length max-1, max, max+1, max+50; cookies aged expiry-2 / expiry+2 / very old / signed with another secret, a genuine cookie followed by its tag in front of another body, and (timeout >= 4 s) a cookie with one second left that the client presents 2.2 s later; client behaviours silent, one byte every 100 ms, stopping mid-frame and after each protocol step, and (with PROXY protocol configured) a valid header sent only after 3/4 of the timeout, each required to be disconnected by timeout + 1.5 s; with a 24 MiB status answer, a client that requests it and reads nothing until timeout + 1.5 s must then find a truncated answer and the end of the stream; the process is stopped with SIGINT and must exit cleanly. Each connection is a distinct case."));
     rep.sample(json!({"conf": confs[0], "case": "frame-length", "len": confs[0].max_packet_length + 1, "expect": "closed unanswered"}));
     rep.sample(json!({"conf": confs[confs.len() - 1], "case": "deadline", "behaviour": "stop-after-encryption-request", "expect": "closed by timeout + 1.5 s"}));
     rep.assume("real time: 'closed too late' uses a 1.5 s allowance; closing earlier is never a violation");
